@@ -396,9 +396,16 @@ class Ctx:
                                     "no_failing_input_found": no_failing_input}, indent=1, default=str))
         rec["path"] = str(path)
         self.violations.append(rec)
-        tail = " no-failing-input-found" if no_failing_input else ""
-        print(f"VIOLATION property={self.pid} replay={path}{tail}", flush=True)
-        print(f"   ({key}: {what[:300]})", flush=True)
+        if no_failing_input and getattr(self, "defer_no_input", False):
+            # the quick tier escalates to the thorough search before it reports "no failing input found" (harness/main.py)
+            rec["deferred"] = True
+            return
+        self.print_violation(rec)
+
+    def print_violation(self, rec):
+        tail = " no-failing-input-found" if rec.get("no_failing_input") else ""
+        print(f"VIOLATION property={self.pid} replay={rec['path']}{tail}", flush=True)
+        print(f"   ({rec['key']}: {rec['what'][:300]})", flush=True)
 
     # -- evidence ---------------------------------------------------------------
     def finish(self, rule: str, explanation: str = "", assumptions: list[str] | None = None, extra: dict | None = None):
